@@ -297,29 +297,35 @@ def satMulAdd (a : Int) (d : Int) : Int :=
 /-- `format!("(arg: {}) ", self.num_args)` -/
 def argPrompt (n : Int) : Text := "(arg: ".toList ++ (toString n).toList ++ ") ".toList
 
-/-- `emacs_digit_argument` -/
-def emacsDigitLoop : Nat → EM KeyEvent
-  | 0 => exit .fuel
-  | fuel + 1 => do
-    let a ← (fun s => .ok (s.inp.numArgs, s) : EM Int)
-    refreshPromptAndLine S U cfg (argPrompt a)
+/-- magnitude of the argument after one more digit ("shouldn't ever need more than 4 digits") -/
+def digitAccum (mag : Option Nat) (d : Nat) : Option Nat :=
+  let cur := mag.getD 0
+  some (if cur < 1000 then cur * 10 + d else cur)
+
+/-- `num_args` while the argument is typed: sign and magnitude are kept apart, a lone `-` is -1 -/
+def argOf (negative : Bool) (mag : Option Nat) : Int :=
+  match mag with
+  | some m => if negative then -(m : Int) else (m : Int)
+  | none => -1
+
+/-- the loop of `emacs_digit_argument` (after the repair of D4: `M-- 1 2` is -12) -/
+def emacsDigitLoop (negative : Bool) : Nat → Option Nat → EM KeyEvent
+  | 0, _ => exit .fuel
+  | fuel + 1, mag => do
+    modify (fun s => { s with inp := { s.inp with numArgs := argOf negative mag } })
+    refreshPromptAndLine S U cfg (argPrompt (argOf negative mag))
     let key ← nextKey true
     match key.code with
     | .char d =>
-      if isDigit d && (key.mods == 0 || key.mods == Mods.alt) then do
-        modify (fun s =>
-          let a := s.inp.numArgs
-          let a' := if a == -1 then a * digitVal d
-                    else if a.natAbs < 1000 then satMulAdd a (digitVal d) else a
-          { s with inp := { s.inp with numArgs := a' } })
-        emacsDigitLoop fuel
-      else if d == '-' && (key.mods == 0 || key.mods == Mods.alt) then emacsDigitLoop fuel
+      if isDigit d && (key.mods == 0 || key.mods == Mods.alt) then
+        emacsDigitLoop negative fuel (digitAccum mag (d.toNat - '0'.toNat))
+      else if d == '-' && (key.mods == 0 || key.mods == Mods.alt) then emacsDigitLoop negative fuel mag
       else do refreshLine S U cfg; pure key
     | _ => do refreshLine S U cfg; pure key
 
-def emacsDigitArgument (fuel : Nat) (digit : Char) : EM KeyEvent := do
-  modify (fun s => { s with inp := { s.inp with numArgs := if digit == '-' then -1 else digitVal digit } })
-  emacsDigitLoop S U cfg fuel
+/-- `emacs_digit_argument` -/
+def emacsDigitArgument (fuel : Nat) (digit : Char) : EM KeyEvent :=
+  emacsDigitLoop S U cfg (digit == '-') fuel (if digit == '-' then none else some (digit.toNat - '0'.toNat))
 
 /-- `num_args` (consumes) -/
 def takeNumArgs : EM Int := fun s =>
